@@ -225,6 +225,9 @@ func c11Exec(ops []c11Op) ([]c11Op, []c11Ev, c11Stats, error) {
 			i := len(r.subs)
 			r.subs = append(r.subs, s)
 			go r.consumer(i, s, op.P)
+			if op.D {
+				cancel() // the context has ended before Subscribe is called
+			}
 			call(step, func() { r.b.Subscribe(ctx, s.ch); s.returned.Store(true) })
 		case "bcast":
 			v := step
@@ -290,6 +293,7 @@ type c11ConcResult struct {
 	leaver    []int
 	late      []int
 	lateStamp int
+	closes    [][2]int
 	hang      bool
 }
 
@@ -411,6 +415,21 @@ func c11ExecConc(in c11Input) c11ConcResult {
 			res.lateStamp = int(clock.Add(1))
 		}()
 	}
+	for k := 0; k < in.Closes; k++ {
+		d := rng.Intn(spin * (in.K + 1))
+		wg.Add(1)
+		go func() {
+			defer wg.Done()
+			<-start
+			c11Spin(d)
+			s := int(clock.Add(1))
+			b.Close()
+			e := int(clock.Add(1))
+			cmu.Lock()
+			res.closes = append(res.closes, [2]int{s, e})
+			cmu.Unlock()
+		}()
+	}
 	close(start)
 	fin := make(chan struct{})
 	go func() { wg.Wait(); close(fin) }()
@@ -452,9 +471,10 @@ func c11ExecConc(in c11Input) c11ConcResult {
 }
 
 // ---------------------------------------------------------------------------------------
-// rushed runs: Subscribe / Broadcast / Close back to back (or all at once), the subscribers'
-// unbuffered channels being received from only AFTER every call has returned: anything received
-// was handed over after Close had returned.
+// rushed runs: Subscribe / Broadcast / Close (one or several Close calls) back to back (or all at
+// once), the subscribers' unbuffered channels being received from only AFTER some Close call has
+// returned (the other calls may still be running): anything received was handed over after a
+// Close had returned.
 
 type c11RushResult struct {
 	late   [][]int
@@ -464,6 +484,10 @@ type c11RushResult struct {
 
 func c11ExecRush(in c11Input) c11RushResult {
 	res := c11RushResult{late: make([][]int, in.Subs)}
+	ncl := in.Closes
+	if ncl < 1 {
+		ncl = 1
+	}
 	for trial := 0; trial < in.Reps; trial++ {
 		res.trials++
 		b := broadcaster.New[int]()
@@ -475,6 +499,13 @@ func c11ExecRush(in c11Input) c11RushResult {
 			ctxs[i], cancels[i] = context.WithCancel(context.Background())
 		}
 		fin := make(chan struct{})
+		// closed as soon as the FIRST Close call to return has returned (others may still run)
+		oneClosed := make(chan struct{})
+		var once sync.Once
+		doClose := func() {
+			b.Close()
+			once.Do(func() { close(oneClosed) })
+		}
 		if in.Mode == "seq" {
 			go func() {
 				for i := range chs {
@@ -483,7 +514,9 @@ func c11ExecRush(in c11Input) c11RushResult {
 				for v := 1; v <= in.Bcasts; v++ {
 					b.Broadcast(v)
 				}
-				b.Close()
+				for k := 0; k < ncl; k++ {
+					doClose()
+				}
 				close(fin)
 			}()
 		} else {
@@ -501,19 +534,20 @@ func c11ExecRush(in c11Input) c11RushResult {
 				v := v
 				spawn(func() { b.Broadcast(v) })
 			}
-			spawn(func() { b.Close() })
+			for k := 0; k < ncl; k++ {
+				spawn(doClose)
+			}
 			close(start)
 			go func() { wg.Wait(); close(fin) }()
 		}
 		t := time.NewTimer(10 * time.Second)
 		select {
-		case <-fin:
-			t.Stop()
+		case <-oneClosed:
 		case <-t.C:
-			res.hang = "the calls did not all return within 10 s (nobody reads, at most 10 values per subscriber: nothing may block)"
+			res.hang = "no Close call returned within 10 s (nobody reads, at most 10 values per subscriber: nothing may block)"
 			return res
 		}
-		// every call has returned: only now do the consumers start receiving
+		// some Close call has returned: only now do the consumers start receiving
 		quit := make(chan struct{})
 		var mu sync.Mutex
 		got := false
@@ -533,6 +567,13 @@ func c11ExecRush(in c11Input) c11RushResult {
 				}
 			}()
 		}
+		select {
+		case <-fin:
+			t.Stop()
+		case <-t.C:
+			res.hang = "the calls did not all return within 10 s"
+			return res
+		}
 		err := c11Settle()
 		close(quit)
 		for _, c := range cancels {
@@ -551,4 +592,90 @@ func c11ExecRush(in c11Input) c11RushResult {
 		}
 	}
 	return res
+}
+
+// ---------------------------------------------------------------------------------------
+// one channel subscribed several times (prompt consumers; the driver waits for quiescence before
+// the departure and at the end)
+
+func c11ExecDup(in c11Input) (shared, other []int, err error) {
+	b := broadcaster.New[int]()
+	quit := make(chan struct{})
+	var mu sync.Mutex
+	consumer := func(ch chan int, out *[]int) {
+		for {
+			select {
+			case v := <-ch:
+				mu.Lock()
+				*out = append(*out, v)
+				mu.Unlock()
+			case <-quit:
+				return
+			}
+		}
+	}
+	sch, och := make(chan int), make(chan int)
+	go consumer(sch, &shared)
+	go consumer(och, &other)
+	var cancels []context.CancelFunc
+	newCtx := func() context.Context {
+		ctx, cancel := context.WithCancel(context.Background())
+		cancels = append(cancels, cancel)
+		return ctx
+	}
+	if in.Variadic {
+		chs := make([]chan<- int, in.Copies)
+		for i := range chs {
+			chs[i] = sch
+		}
+		b.Subscribe(newCtx(), chs...)
+	} else {
+		for i := 0; i < in.Copies; i++ {
+			b.Subscribe(newCtx(), sch)
+		}
+	}
+	lastCopy := cancels[len(cancels)-1]
+	b.Subscribe(newCtx(), och)
+	fin := make(chan struct{})
+	go func() {
+		defer close(fin)
+		for v := 1; v <= in.Bcasts; v++ {
+			if in.Leave > 0 && v == in.Leave {
+				if err = c11Settle(); err != nil {
+					return
+				}
+				lastCopy()
+				if err = c11Settle(); err != nil {
+					return
+				}
+			}
+			b.Broadcast(v)
+		}
+		if in.Leave == in.Bcasts+1 {
+			if err = c11Settle(); err == nil {
+				lastCopy()
+			}
+		}
+	}()
+	t := time.NewTimer(30 * time.Second)
+	select {
+	case <-fin:
+		t.Stop()
+	case <-t.C:
+		return nil, nil, fmt.Errorf("dup: Broadcast did not return within 30 s although every consumer reads")
+	}
+	if err == nil {
+		err = c11Settle()
+	}
+	mu.Lock()
+	shared = append([]int{}, shared...)
+	other = append([]int{}, other...)
+	mu.Unlock()
+	for _, c := range cancels {
+		c()
+	}
+	close(quit)
+	go b.Close()
+	_ = c11Settle()
+	return shared, other, err
 }
